@@ -820,7 +820,7 @@ fn fragments(prop: &str) -> Vec<&'static str> {
         "C09" | "C14" => vec!["%do ", "%m", "%to ", "%let ", "%eval(", "%scan(", "%if ", "%then ", "%macro ", "%end"],
         "C10" => vec!["%eval(", "%str(", "%do ", "%scan(", "datalines;", "%m", ":"],
         "C06" | "C11" => vec!["datalines4;", "datalines;", "datalines", ";;;;", ";;", "data a;", "/*", "*/", "cards;", "\u{a0}", "\u{3000}", "\u{301}", "\u{663}"],
-        "C04" | "C05" | "C02" | "C03" | "C17" => vec!["/*", "*/", "%m(", "😀", "%str(", "datalines;", "\u{feff}", "%*", "%let "],
+        "C04" | "C05" | "C02" | "C03" | "C17" => vec!["/*", "*/", "%m(", "😀", "%str(", "datalines;", "\u{feff}", "%*", "%let ", "%ю", "юа", "%eval(", "%if ", "$", "%put "],
         "C16" => vec!["ge", "eq", "%eval(", "'x", "e1", "0fx", "d", "dt", "%if ", "nE", "datalines;", "%then"],
         "C01" | "C19" => vec!["%do ", "%m(", "%*", "%let ", "%macro ", "%if ", "%to ", "%eval(", "%str(", "%sysfunc("],
         _ => vec![],
